@@ -22,6 +22,15 @@ CLAIMED = {
              "update_workspace_file stubbed; BMP characters (UTF-16 offsets == str indices); CrossHair+z3 trusted",
         ref="DESIGN.md section 5 C02",
     ),
+    "C16": dict(
+        text="Bounded symbolic execution of the framing code: every writer with a FREE symbolic body string (any Unicode, "
+             "len<=4) under the json.dumps contract selected by the call site; the reader on two back-to-back frames with "
+             "token bodies (1-4 byte chars, LF/CRLF, look-alike header) x 4 header layouts x extra header; truncated streams; "
+             "real ReadWriter/BytesIO incl. multi-byte characters straddling 2^k byte offsets; URI round trip on special-character tokens.",
+        note="json.dumps/loads stubbed by contract (ensure_ascii=True => ASCII); BufferedReader.read(n) contract assumed, so OS-level "
+             "chunking is stated not explored; POSIX paths; CrossHair+z3 trusted",
+        ref="DESIGN.md section 5 C16",
+    ),
 }
 
 NOT_APPLICABLE = {
